@@ -51,6 +51,7 @@ pub struct NHistory {
     token_bound: HashMap<u64, SocketAddr>, // token -> the address its MAC was first recorded for by the server
     bound_order: Vec<u64>,                 // tokens in the order the server recorded them
     last_heard: HashMap<u64, std::time::Duration>, // client id -> server time of the last event that certainly was an authentic arrival
+    last_arrival_from: HashMap<SocketAddr, std::time::Duration>, // source address -> server time of the last datagram handed to the server from it
     sealed_by: HashMap<Vec<u8>, (u64, Option<Vec<u8>>)>, // codec suite: datagram -> (protocol id, key) it was sealed with
     challenge_nonces: HashMap<u64, Vec<u8>>,             // challenge token sequence -> sealed challenge token seen with it
     max_accepted: HashMap<(u8, u64), u64>, // (direction, client k) -> highest sequence accepted in the current session
@@ -128,6 +129,7 @@ impl NHistory {
             token_bound: HashMap::new(),
             bound_order: vec![],
             last_heard: HashMap::new(),
+            last_arrival_from: HashMap::new(),
             sealed_by: HashMap::new(),
             challenge_nonces: HashMap::new(),
             max_accepted: HashMap::new(),
@@ -310,6 +312,7 @@ impl NHistory {
         let known_inauthentic = known_inauthentic || (!data.is_empty() && data[0] & 15 != 0 && !opens && !self.owner_crafted);
         let before = self.server_state();
         let now_secs = s.current_time().as_secs();
+        self.last_arrival_from.insert(from, s.current_time());
         let replayed = self.delivered_to_server.contains(&(from, data.clone()));
         let is_request = data.first().map(|p| p & 15 == 0).unwrap_or(false);
         let op = l(vec![n(110u8), addr_tree(&from), b(&data)]);
@@ -790,6 +793,14 @@ impl NHistory {
                         }
                         if disconnected && !(c.timeout_seconds > 0 && silent > limit) {
                             self.violate("C18", format!("client {} disconnected by update_client after {:?} of silence, timeout is {:?}", id, silent, limit));
+                        }
+                        // nothing at all was handed to the server from the client's address for longer than the timeout: whatever
+                        // the server's own bookkeeping says, the client is silent and must go
+                        let last_any = self.last_arrival_from.get(&c.addr).copied().into_iter().chain(self.last_heard.get(&id).copied()).max();
+                        if let (false, true, Some(last_any)) = (disconnected, c.timeout_seconds > 0, last_any) {
+                            if now.saturating_sub(last_any) > limit {
+                                self.violate("C18", format!("client {} was kept by update_client although no datagram from its address reached the server for {:?}, timeout is {:?}", id, now.saturating_sub(last_any), limit));
+                            }
                         }
                         // the same against the monitor's own clock: the handshake's completion and every surfaced payload are arrivals
                         if let (true, Some(heard)) = (disconnected, self.last_heard.get(&id).copied()) {
